@@ -2,6 +2,7 @@
 C19 — diagnostics are local: unrelated text only shifts them (lexer/position half).
 -/
 import NormModel.Proofs.LexShift
+import NormModel.Proofs.CommentLine
 import NormModel.Properties.C09
 namespace Norm.C19
 open Norm Spec
@@ -159,6 +160,132 @@ theorem lex_after_prefix (u : Uni) (pre src : List Char) (d0 : List Diag) (r : L
     have := lex_shift u src d0 (nlCount pre) pre.length (src.length + 1 + n)
     rw [hm] at this
     exact ⟨shSt d0 (nlCount pre) pre.length q.2, this, rfl⟩
+
+/-! ### … and it reaches that standing point after comment lines -/
+
+theorem triAt_second {a b : Char} {l : List Char} {d : Char} (h : triAt (a :: b :: l) = some d) : a = '?' ∧ b = '?' := by
+  unfold triAt at h
+  split at h
+  · rename_i heq; simp at heq; exact ⟨heq.1, heq.2.1⟩
+  · cases h
+
+theorem triAt_cons3 (a b c : Char) (t1 t2 : List Char) : triAt (a :: b :: c :: t1) = triAt (a :: b :: c :: t2) := by
+  cases h1 : triAt (a :: b :: c :: t1) with
+  | some d =>
+    obtain ⟨rfl, rfl⟩ := triAt_second h1
+    rw [← h1]; rfl
+  | none =>
+    cases h2 : triAt (a :: b :: c :: t2) with
+    | none => rfl
+    | some d =>
+      obtain ⟨rfl, rfl⟩ := triAt_second h2
+      have : triAt ('?' :: '?' :: c :: t1) = triAt ('?' :: '?' :: c :: t2) := rfl
+      rw [h1, h2] at this; cases this
+
+theorem peek1_append_len3 (l x : List Char) (h : 3 ≤ l.length) : peek1 (l ++ x) 0 = peek1 l 0 := by
+  match l, h with
+  | a :: b :: c :: tl, _ =>
+    unfold peek1
+    simp only [List.drop_zero, List.cons_append]
+    rw [triAt_cons3 a b c (tl ++ x) tl, diAt_cons2, diAt_cons2]
+
+/-- decidable form of `SelfReads` -/
+def selfReadsB : List Char → List Char → Bool
+  | [], _ => true
+  | c :: body, after =>
+    (peek1 (c :: (body ++ after)) 0 == some (c, 1)) && c != '\\' && c != '\n' && c != '\t' && selfReadsB body after
+
+theorem selfReadsB_sound (body : List Char) (a b : Char) (tl : List Char) (h : selfReadsB body [a, b] = true) :
+    SelfReads body (a :: b :: tl) := by
+  induction body with
+  | nil => exact SelfReads.nil _
+  | cons c body ih =>
+    simp only [selfReadsB, Bool.and_eq_true, beq_iff_eq, bne_iff_ne, ne_eq] at h
+    obtain ⟨⟨⟨⟨h1, h2⟩, h3⟩, h4⟩, h5⟩ := h
+    refine SelfReads.cons c body _ ?_ h2 h3 h4 (ih h5)
+    have e : c :: (body ++ a :: b :: tl) = (c :: (body ++ [a, b])) ++ tl := by simp
+    rw [e, peek1_append_len3 _ _ (by simp)]
+    exact h1
+
+/-- decidable form of `NoEarlyClose` -/
+def noEarlyCloseB (v body : List Char) : Bool :=
+  (List.range body.length).all fun k =>
+    !(endsWithStarSlash (v ++ body.take (k + 1)) && decide ((v ++ body.take (k + 1)).length ≥ 4))
+
+theorem noEarlyCloseB_sound (v body : List Char) (h : noEarlyCloseB v body = true) : NoEarlyClose v body := by
+  intro n hn hle
+  unfold noEarlyCloseB at h
+  rw [List.all_eq_true] at h
+  have := h (n - 1) (by simp; omega)
+  have e : n - 1 + 1 = n := by omega
+  rw [e] at this
+  cases hx : (endsWithStarSlash (v ++ body.take n) && decide ((v ++ body.take n).length ≥ 4)) with
+  | false => rfl
+  | true => rw [hx] at this; cases this
+
+/-- a line that can be checked by evaluation -/
+def lineOKB (body : List Char) : Bool := selfReadsB body ['*', '/'] && noEarlyCloseB ['/', '*'] body
+
+theorem lineOKB_sound (body : List Char) (h : lineOKB body = true) : LineOK body := by
+  simp only [lineOKB, Bool.and_eq_true] at h
+  exact ⟨fun tl => selfReadsB_sound body '*' '/' tl h.1, noEarlyCloseB_sound _ _ h.2⟩
+
+theorem cline_length_ge (b : List Char) : 5 ≤ (cline b).length := by simp [cline]
+
+theorem clines_length_ge (bodies : List (List Char)) : 2 * bodies.length ≤ (clines bodies).length := by
+  induction bodies with
+  | nil => simp [clines]
+  | cons b bs ih =>
+    have := cline_length_ge b
+    simp only [clines, List.length_append, List.length_cons]
+    omega
+
+/-- **Comment lines in front of a file only move its tokens down** (C19, lexer half, complete): if `src` lexes to `r`,
+then `n` block-comment lines (`/* … */` + newline, each passing `LineOK`: every character reads as itself, no `*/` inside)
+followed by `src` lex to 2n comment/newline tokens followed by exactly the items of `r` moved down by `n` lines (same
+kinds, values and columns; offsets moved by the length of the lines), and the diagnostics of `r` moved likewise.
+With `lex_shift` this is the reachability half that `lex_after_prefix` left open. -/
+theorem comment_lines_prefix (u : Uni) (bodies : List (List Char)) (hok : ∀ b ∈ bodies, LineOK b) (src : List Char)
+    (r : LexResult) (h : lex u src = .ok r) :
+    ∃ hdr r', lex u (clines bodies ++ src) = .ok r' ∧ hdr.length = 2 * bodies.length ∧
+      (∀ it ∈ hdr, ∃ t, it = Item.tok t ∧ (t.type = "MULT_COMMENT" ∨ t.type = "NEWLINE")) ∧
+      r'.items = hdr ++ r.items.map (shItem bodies.length (clines bodies).length) ∧
+      r'.diags = r.diags.map (shDiag bodies.length) := by
+  have hL := clines_length_ge bodies
+  unfold lex at h
+  cases hrun : lexItems u (src.length + 1) { rest := src } with
+  | error e => rw [hrun] at h; cases h
+  | ok q =>
+    rw [hrun] at h
+    simp only [Except.ok.injEq] at h
+    subst h
+    -- fuel bookkeeping
+    have hfuel : (clines bodies ++ src).length + 1 = (src.length + 1 + ((clines bodies).length - 2 * bodies.length)) + 2 * bodies.length := by
+      simp only [List.length_append]; omega
+    obtain ⟨hdr, hl, hty, hlex⟩ := commentLines_lex u (src.length + 1 + ((clines bodies).length - 2 * bodies.length)) bodies hok
+      { rest := clines bodies ++ src } src rfl rfl
+    have hm := lexItems_fuel_mono u (src.length + 1) ((clines bodies).length - 2 * bodies.length) { rest := src } q hrun
+    have hsh := lex_shift u src [] bodies.length (clines bodies).length (src.length + 1 + ((clines bodies).length - 2 * bodies.length))
+    rw [hm] at hsh
+    dsimp only at hlex
+    rw [Nat.zero_add, hsh] at hlex
+    refine ⟨hdr, ⟨(hdr ++ q.1.map (shItem bodies.length (clines bodies).length)).filterMap Item.tok?,
+      (shSt [] bodies.length (clines bodies).length q.2).diags, hdr ++ q.1.map (shItem bodies.length (clines bodies).length)⟩, ?_, hl, hty, rfl, ?_⟩
+    · unfold lex
+      rw [hfuel, hlex]
+      rfl
+    · simp [shSt]
+
+/-- Non-vacuity: the frame and a field line of the 42 header pass `LineOK`; two comment lines in front of `int\tx;`. -/
+example : lineOKB " ************************************************************************** ".toList = true ∧
+    lineOKB "   By: marvin <marvin@42.fr>                      +#+  +:+       +#+        ".toList = true ∧
+    lineOKB "   Created: 2023/01/01 10:00:00 by marvin            #+#    #+#             ".toList = true ∧
+    lineOKB " a */ b ".toList = false ∧ lineOKB " a <: b ".toList = false := by decide +kernel
+
+example : (lex {} (clines [" a ".toList, " b:c ".toList] ++ "int\tx;".toList)).toOption.map
+      (fun r => r.tokens.map (fun t => (t.type, t.line, t.col)))
+    = some [("MULT_COMMENT", 1, 1), ("NEWLINE", 1, 8), ("MULT_COMMENT", 2, 1), ("NEWLINE", 2, 10),
+            ("INT", 3, 1), ("TAB", 3, 4), ("IDENTIFIER", 3, 5), ("SEMI_COLON", 3, 6)] := by decide +kernel
 
 /-- Non-vacuity: `int\tx;` lexed alone and lexed from the standing point after two lines. -/
 example :
